@@ -69,6 +69,13 @@ def cmp_vars(b, st, depth=2):
 
 
 FLIP = {'Lt': 'Gt', 'Gt': 'Lt', 'Le': 'Ge', 'Ge': 'Le', 'Eq': 'Eq', 'Ne': 'Ne'}
+NEG = {'Lt': 'Ge', 'Ge': 'Lt', 'Gt': 'Le', 'Le': 'Gt', 'Eq': 'Ne', 'Ne': 'Eq'}
+
+
+def same_test(op):
+    """the operators that express the same test as `a <op> b` with the operands swapped and / or the branches exchanged
+    (`if i < n { use } else { err }`  ==  `if i >= n { return err } use`)"""
+    return {op, FLIP.get(op), NEG.get(op), FLIP.get(NEG.get(op))}
 
 
 def requirement_holds(P, b, req, site=None):
@@ -99,7 +106,7 @@ def requirement_holds(P, b, req, site=None):
         from flow import origins, is_local_op
         for x in bodies:
             for pos, st in x.iter_stmts():
-                if st['k'] == 'assign' and st['rv']['k'] == 'bin' and st['rv']['op'] in (op, FLIP.get(op)):
+                if st['k'] == 'assign' and st['rv']['k'] == 'bin' and st['rv']['op'] in same_test(op):
                     for o in (st['rv']['a'], st['rv']['b']):
                         if is_local_op(o):
                             for org in origins(x, o):
@@ -114,7 +121,7 @@ def requirement_holds(P, b, req, site=None):
             wanted = site.operand_names()       # the variable was renamed: the guard must then be about an operand of the site
         for x in bodies:
             for pos, st in x.iter_stmts():
-                if st['k'] == 'assign' and st['rv']['k'] == 'bin' and st['rv']['op'] in (op, FLIP.get(op)):
+                if st['k'] == 'assign' and st['rv']['k'] == 'bin' and st['rv']['op'] in same_test(op):
                     cv = cmp_vars(x, st)
                     if (wanted & cv) and (not const or ('#' + const) in cv):
                         return True
